@@ -322,7 +322,17 @@ func (s *Server) handleDiscovery(clientMAC net.HardwareAddr, data []byte) {
 		return
 	}
 
-	payload := data[6 : 6+hdr.Length]
+	// The declared payload length comes from the peer: it must fit in the
+	// bytes actually received (computed as int, 6+Length overflows uint16)
+	if 6+int(hdr.Length) > len(data) {
+		s.logger.Debug("PPPoE payload length exceeds frame",
+			zap.Uint16("length", hdr.Length),
+			zap.Int("received", len(data)),
+		)
+		return
+	}
+
+	payload := data[6 : 6+int(hdr.Length)]
 	tags, err := ParseTags(payload)
 	if err != nil {
 		s.logger.Debug("Invalid PPPoE tags", zap.Error(err))
